@@ -61,7 +61,7 @@ func openFDsUnder(dir string) []string {
 		return nil
 	}
 	for _, e := range ents {
-		if tgt, err := os.Readlink("/proc/self/fd/" + e.Name()); err == nil && strings.HasPrefix(tgt, dir) {
+		if tgt, err := os.Readlink("/proc/self/fd/" + e.Name()); err == nil && strings.HasPrefix(tgt, dir) && !strings.HasSuffix(tgt, "(deleted)") {
 			out = append(out, tgt)
 		}
 	}
